@@ -459,9 +459,13 @@ def _pkill(eng, st, self_v, args, kwargs, node):
     return [eng.val(st, NONE)]
 
 
-@_impl("Process.start", cite="BaseProcess.start(): spawns the child; pid is set and is not the pid of another live child")
+@_impl("Process.start", cite="BaseProcess.start(): spawns the child; pid is set and is not the pid of another live child; OSError (EAGAIN/ENOMEM/EMFILE) when the spawn fails")
 def _pstart(eng, st, self_v, args, kwargs, node):
     from pyvc.values import fresh_const
+    failed = st.clone()
+    failed.emit("start_failed", [self_v], eng.site(node))
+    failed.notes.append("Process.start raises OSError")
+    fail_out = eng.raise_new(failed, "OSError")
     pid = fresh_const("newpid", T.IntS)
     live = st.ghost_get("pid_live")
     st.assume(z3.Not(z3.Select(live, pid)))       # A-pids (kernel)
@@ -471,7 +475,7 @@ def _pstart(eng, st, self_v, args, kwargs, node):
     g = st.ghost_get("started")
     st.ghost_set("started", z3.Store(g, self_v.t, z3.BoolVal(True)))
     st.emit("start", [self_v, VInt(pid)], eng.site(node))
-    return [eng.val(st, NONE)]
+    return [fail_out, eng.val(st, NONE)]
 
 
 @_impl("Context.Process", cite="ctx.Process(target=, args=, env=): a new, unstarted process object; contexts other than loky reject env= with TypeError")
@@ -527,3 +531,7 @@ def _mp_pipe(eng, st, self_v, args, kwargs, node):
 
 for nm in ("BoundedSemaphore", "Lock", "Semaphore", "RLock"):
     S.contracts[f"Context.{nm}"].event("new_lock", "self")
+
+
+_decodable = z3.Function("py_decodable_ascii", T.StrS, T.BoolS)
+S.spec_funcs["decodable"] = lambda eng, st, s_: VBool(_decodable(z3.Function("py_str_strip", T.StrS, T.StrS)(s_.t)))
